@@ -3,7 +3,7 @@
 cd /verif
 for d in seeded/*/; do
   name=$(basename $d); id=${name%%-*}
-  out=$(TAIL=400 tools/try_seed.sh $d/patch.diff $id ${1:-quick} 2>&1)
+  out=$(TAIL=400 tools/try_seed.sh /verif/${d}patch.diff $id ${1:-quick} 2>&1)
   nv=$(echo "$out" | grep -c '^VIOLATION')
   first=$(echo "$out" | grep -A1 '^VIOLATION' | grep -v '^VIOLATION\|^--' | head -1 | sed 's/: [0-9]* case.*//' | cut -c1-90)
   echo "$name check=$id violations_lines=$nv first=[$first]"
